@@ -387,7 +387,8 @@ class Oracle:
         self.du, self.dg, self.dmode = d.get("uid", 0), d.get("gid", 0), d.get("mode", 0o755)
         self.nodes = {}
         self.fsidx = {n["p"]: n for n in case.get("fs", [])}
-        root = Exp(b"/", "dir", self.dmode, self.du, self.dg, self.dm, implicit=True, tags=["root", "implicit"])
+        # --set-uid/--set-gid: "Force the owners user ID for ALL inodes": the root and implicit directories included
+        root = Exp(b"/", "dir", self.dmode, self.uid(self.du), self.gid(self.dg), self.dm, implicit=True, tags=["root", "implicit"])
         self.nodes[b"/"] = root
         self.links = []          # (Exp placeholder path, target comps, tag)
 
@@ -408,7 +409,7 @@ class Oracle:
             n = self.nodes.get(p)
             if n is None:
                 self.check_name(comps[i - 1])
-                self.nodes[p] = Exp(p, "dir", self.dmode, self.du, self.dg, self.dm, implicit=True, tags=["implicit"])
+                self.nodes[p] = Exp(p, "dir", self.dmode, self.uid(self.du), self.gid(self.dg), self.dm, implicit=True, tags=["implicit"])
             elif n.type != "dir":
                 raise Refuse("parent-not-dir", s(p))
 
